@@ -62,6 +62,7 @@ class Check:
         self.quiet = quiet
         self.extra = {}
         self.rule_text = {}
+        self.tainted = {}
 
     # ------------------------------------------------------------ recording
     def ob(self, rule, construct, verdict, detail="", rel="", node=None, line=0, nontrivial=True):
@@ -83,6 +84,53 @@ class Check:
         self.obs.append(o)
         return o
 
+    def taint(self, tainted):
+        """constructs (generator functions, methods) whose analysis met something outside the modelled fragment"""
+        for k, v in (tainted or {}).items():
+            cur = self.tainted.setdefault(k, [])
+            for item in v:
+                if item not in cur:
+                    cur.append(item)
+
+    def apply_taint(self):
+        """a refutation derived from the analysis of a function that contains constructs the analysis cannot
+        follow (a call it cannot resolve, a container escaping into it) is not definite: the refuting state may
+        exist only because the effect of that construct is unknown.  Such verdicts become UNKNOWN."""
+        for o in self.obs:
+            if o.verdict != REFUTED:
+                continue
+            for pre, why in self.tainted.items():
+                if o.construct == pre or o.construct.startswith(pre + "#") or o.construct.startswith(pre + "."):
+                    o.verdict = UNKNOWN
+                    o.detail = ("not definite (the analysis of this function met constructs it cannot follow: "
+                                + "; ".join(f"line {l}: {t}" for l, t in why[:3]) + ") -- " + o.detail)
+                    break
+
+    def combine(self, other, cells):
+        """merge a second, independent cover of the same obligations (thorough tier)"""
+        mine = {o.key(): o for o in self.obs}
+        better = worse = new = 0
+        for o in other.obs:
+            p = mine.get(o.key())
+            if p is None:
+                self.obs.append(o)
+                new += 1
+                continue
+            if o.verdict == REFUTED and p.verdict != REFUTED:
+                p.verdict, p.detail, p.line = REFUTED, "[cell cover] " + o.detail, o.line
+                worse += 1
+            elif o.verdict == PROVED and p.verdict == UNKNOWN:
+                p.verdict, p.detail = PROVED, "[cell cover] " + o.detail
+                better += 1
+        for e in other.errors:
+            self.errors.append("[cell cover] " + e)
+        self.files |= other.files
+        self.functions |= other.functions
+        self.extra["cell_cover"] = {"generator_runs": cells, "obligations": len(other.obs), "decided_only_there": better,
+                                    "refuted_only_there": worse, "additional_obligations": new}
+        self.note(f"thorough tier: second cover with {cells} generator runs over boundary cells of the configuration "
+                  f"({len(other.obs)} obligations; {better} decided only there, {worse} refuted only there, {new} additional)")
+
     def decide(self, rule, construct, ok, detail="", **kw):
         """ok: True -> PROVED, False -> REFUTED, None -> UNKNOWN"""
         v = PROVED if ok is True else (REFUTED if ok is False else UNKNOWN)
@@ -100,6 +148,7 @@ class Check:
 
     # ------------------------------------------------------------ finishing
     def finish(self, only=None):
+        self.apply_taint()
         known = [k for k in load_known() if k.get("property") == self.pid]
         known_keys = {(k["rule"], k["construct"]): k for k in known if k.get("status") == "known"}
         pins = load_pins().get(self.pid, {})
